@@ -16,23 +16,26 @@ import build  # noqa: E402
 
 def main():
     t = time.time()
-    jobs = [
-        lambda: build.build_exe("gasan", ["optdrv.cpp"], build.OPTIONS_SRCS),
-        lambda: build.build_exe("gasan", ["fvmodel.cpp"]),
-        lambda: build.build_exe("gasan", ["fv_insert_lvalue_probe.cpp"]),
-        lambda: build.build_exe("gasan", ["strdrv.cpp"]),
-        lambda: build.build_exe("gasan", ["ownhist.cpp"]),
-        lambda: build.build_exe("gasan", ["hashgrid.cpp"]),
-        lambda: build.build_exe("gasan", ["iteradapt.cpp"]),
-        lambda: build.build_exe("plain", ["mtlog.cpp"]),
-        lambda: build.build_exe("gtsan", ["mtlog.cpp"]),
-        lambda: build.build_exe("gtsan", ["mtindep.cpp"], build.OPTIONS_SRCS, link=["-ldl"]),
-        lambda: build.build_exe("plain", ["mtindep.cpp"], build.OPTIONS_SRCS, link=["-ldl"]),
-    ]
+    LINK_DL = ["-ldl"]
+    jobs = []
+    for tag in ("gasan", "plain", "casan"):
+        jobs.append(lambda tag=tag: build.build_exe(tag, ["optdrv.cpp"], build.OPTIONS_SRCS))
+        jobs.append(lambda tag=tag: build.build_exe(tag, ["fvmodel.cpp"]))
+        jobs.append(lambda tag=tag: build.build_exe(tag, ["strdrv.cpp"]))
+        jobs.append(lambda tag=tag: build.build_exe(tag, ["ownhist.cpp"]))
+        jobs.append(lambda tag=tag: build.build_exe(tag, ["hashgrid.cpp"]))
+        jobs.append(lambda tag=tag: build.build_exe(tag, ["iteradapt.cpp"]))
+    jobs.append(lambda: build.build_exe("gasan", ["fv_insert_lvalue_probe.cpp"]))
+    for tag in ("plain", "gtsan", "cplain", "ctsan"):
+        jobs.append(lambda tag=tag: build.build_exe(tag, ["mtlog.cpp"]))
+    for tag in ("gtsan", "plain", "gasan"):
+        jobs.append(lambda tag=tag: build.build_exe(tag, ["mtindep.cpp"], build.OPTIONS_SRCS, link=LINK_DL))
+    jobs.append(lambda: build.build_exe("plain", ["envdl.cpp"], ["src/env/get.cpp"],
+                                        link=["-Wl,--wrap=dlopen,--wrap=dlclose,--wrap=dlsym,--wrap=dlerror", "-rdynamic", "-ldl"]))
     import c19
     jobs.append(c19._build)
     ok = True
-    with ThreadPoolExecutor(max_workers=8) as ex:
+    with ThreadPoolExecutor(max_workers=16) as ex:
         for f in [ex.submit(j) for j in jobs]:
             try:
                 f.result()
@@ -44,7 +47,10 @@ def main():
         import logrun
         import verdict
         n = 2
-        logrun.run_programs([verdict.seed() * 1000 + i for i in range(n)])
+        seeds = [verdict.seed() * 1000 + i for i in range(n)]
+        logrun.run_programs(seeds)
+        logrun.run_programs(seeds[:1], tag="casan", minima=[0, 2, 5])
+        logrun.run_programs(seeds[:1], tag="plain", minima=[0, 3])
     except Exception as e:  # never fail the setup because of a warm-up
         print("setup: log program warm-up skipped: %s" % e)
     build.prune()
